@@ -173,7 +173,7 @@ ADDENDA2 = {
          "; sign analysis of length returns; rebinding and handler-scope rules for the Python sequences"),
  "C16": (" An owned reference is not released twice by explicit DECREFs. SHIFT-BOUNDS: in-place memmove shifts of node arrays read only entries the node held (affine bounds against len with the decrements executed before). REAL-TYPE as in C10. USE-AFTER-RELEASE: a local that only borrows a container field's reference is not used after that reference was released (no own INCREF on the path). The two accepted idioms of RELEASE-ATTACHED in _BTree_set were wrong and were removed (code repaired).",
          "; affine bound analysis of memmove shifts; borrowed-reference typestate"),
- "C18": (" CHECK-TABLES: the dispatch tables of check.py are evaluated from their module-level loops and compared with the specification for every family and both implementations. CHECK-TRANSPARENT: no de-duplicating / re-ordering operation on state data whose result, as a sequence, reaches the order check of check.py (sequence-level taint through assignments, arguments and returns; re-ordering the work list of nodes is not a finding). The Python _check is read through a sequence domain (lists derived from the node's items, zip / enumerate case split, helper methods), RANGE-PROP finds the child loop by roles. An assertion switched off by a guard that looks at the asserted value itself counts as weakened.",
+ "C18": (" CHECK-TABLES: the dispatch tables of check.py are evaluated from their module-level loops and compared with the specification for every family and both implementations. CHECK-TRANSPARENT: no de-duplicating / re-ordering operation on state data whose result, as a sequence, reaches the order check of check.py (sequence-level taint through assignments, arguments and returns; re-ordering the work list of nodes is not a finding). The Python _check is read through a sequence domain (lists derived from the node's items, zip / enumerate case split, helper methods), RANGE-PROP finds the child loop by roles. The C assertions are found by what they do (CHECK macro, message stored into the reported variable, message returned by a helper and reported unconditionally); GHOST-READ (pin typestate of C05) on the functions of the C checker: what it compares is read from activated nodes only. An assertion switched off by a guard that looks at the asserted value itself counts as weakened.",
          "; partial evaluation of module-level table construction; interprocedural sequence taint"),
  "C19": (" sum() over literal collections (a set literal loses equal elements), stores through self.__dict__ and the class's own methods called unbound are followed.", ""),
 }
